@@ -497,6 +497,15 @@ func (s *Server) Clear() {
 
 	// an init error cached for the execution environment that has just been reset must not be replayed to invocations of the next one
 	s.setCachedInitErrorResponse(nil)
+	// neither must the failure of its initialisation, which waits in initFailures for the first invocation to collect it,
+	// when the reset comes before any invocation did
+	select {
+	case initFailure, pending := <-s.getInitFailuresChan():
+		if pending {
+			log.Warnf("Discard init failure of the environment that was reset: %s", initFailure.ErrorType)
+		}
+	default:
+	}
 	// releasing and draining form one step with respect to sendInvokeDone: an outcome that is handed over before the
 	// release is drained here, one that comes later finds its reservation gone
 	s.mutex.Lock()
